@@ -131,6 +131,11 @@ def run(ck):
     ck.mc("MC_BoundsAvx2", "MC_BoundsAvx2.cfg", note="AVX2 parallel formulas, per-lane factors; re-derives (1.01, 1.6, 2.33, 1.6)", workers=2)
     ck.mc("MC_BoundsAvx2", "MC_BoundsAvx2_neg.cfg", note="kept counterexample: a second lazy negation of a cached point", workers=2, expect_violation=True)
     ck.mc("MC_BoundsAvx2", "MC_BoundsAvx2_neg2.cfg", note="kept counterexample: negate_lazy applied twice in double()", workers=2, expect_violation=True)
+    ck.mc("MC_BoundsIfma", "MC_BoundsIfma.cfg", note="IFMA parallel formulas: every multiplicand < 2^52, no 64-bit wrap, negate_lazy never underflows (32p), all chains", workers=2)
+    ck.mc("MC_BoundsIfma", "MC_BoundsIfma_16p.cfg", note="kept counterexample: with negate_lazy's former constants (16p) limb 4 of a product exceeds them", workers=2, expect_violation=True)
+    for c, what in (("neg1", "double() without the second reduction feeds unreduced multiplicands"), ("neg2", "add() without the reduction after diff_sum"),
+                    ("neg3", "double() negating a sum of two squares")):
+        ck.mc("MC_BoundsIfma", "MC_BoundsIfma_%s.cfg" % c, note="kept counterexample: " + what, workers=2, expect_violation=True)
     ck.mc("MC_LimbField", "MC_LimbField_61.cfg", note="toy kernels: no accumulator / carry / word overflow on every admissible representation", workers=8)
     ck.mc("MC_LimbField", "MC_LimbField_neg.cfg", note="kept counterexample: one more bit of headroom overflows", workers=8, expect_violation=True)
     ck.apalache("AP_Mul51", 2, "u64 mul: no accumulator / carry / word overflow for all limbs < 2^54 (the debug_assert bound)", cinit="CInit54")
